@@ -86,13 +86,11 @@ Definition dec_dec (v : val) : decision :=
   | VI z => if 0 <=? z then DSvc (Z.to_nat z) else if z =? -1 then DNone else DPanic
   | _ => DPanic
   end.
-Definition is_svc (d : decision) : bool := match d with DSvc _ => true | _ => false end.
-Definition is_none (d : decision) : bool := match d with DNone => true | _ => false end.
 
 (* case = (tables script svc); observation = (decision closed handed rem0 ((d e rem)...)) *)
 Definition x_C19_serve_run (c : val) : val :=
   let '(d, rem0, rs) := mux_run true (dec_tables (nthv 0 c)) (dec_script (nthv 1 c)) (dec_sizes (nthv 2 c)) in
-  VL [enc_dec d; vbool (is_none d); VI (if is_svc d then 1 else 0); vnat rem0; vlist enc_sres rs].
+  VL [enc_dec d; vbool (dec_closed d); vnat (dec_handed d); vnat rem0; vlist enc_sres rs].
 
 Definition x_C19_serve_ok (v : val) : val :=
   let c := nthv 0 v in let obs := nthv 1 v in
